@@ -35,7 +35,9 @@ def cfg_for(states, with_lost_persistent, extra=None):
             # (the schedule exploration of a reconnect due at stop() uses a plain application: worker threads that all wake up at once
             # multiply the orders to explore without touching the dial path)
             "apps": [dict({"id": env.APP_ACCT, "acct": True, "peers": list(range(len(states)))},
-                          **({} if extra == "due_now" else {"kind": "threading", "max_threads": 2}))]}
+                          **({} if extra == "due_now" else {"kind": "threading", "max_threads": 2}))] +
+                    # "stop_from_handler": a second threading application registered after the first
+                    ([{"id": env.APP_AUTH, "auth": True, "peers": list(range(len(states))), "kind": "threading", "max_threads": 2}] if extra == "stop_from_handler" else [])}
 
 
 def setup(sc, states, with_lost, extra=None):
@@ -119,7 +121,21 @@ def run_case(case, chooser=None, window=None):
         if window is not None:
             nw.world.points_on = True
             chooser.window = True
-        sc.apply(("stop", force, wt))
+        if extra == "stop_from_handler":
+            # stop() is called from inside a request handler of the first application (a thread of that application)
+            def stopping_handler(message):
+                nw.world.obs("env_stop", force, wt)
+                try:
+                    nw.node.stop(wait_timeout=wt, force=force)
+                    nw.world.obs("stop_returned")
+                except Exception as e:
+                    nw.world.obs("stop_raised", repr(e))
+                return "answer"
+            nw.apps[0].behaviour = stopping_handler
+            sc.stop_thread = True
+            sc.apply(("m", idx[ready_at_stop[0]], "req"))
+        else:
+            sc.apply(("stop", force, wt))
         if window is not None:
             chooser.window = False
             nw.world.points_on = False
@@ -316,6 +332,10 @@ def all_cases(tier):
     for sts in (("ready",), ("ready", "ready"), ("waiting_dwa", "ready")):
         for reac in ("dpa_now", "never"):
             cases.append((sts, reac, False, 3, None, False, "bad_backlog"))
+    for sts in (("ready",), ("ready", "ready")):
+        for reac in ("dpa_now", "never"):
+            for frc in (False, True):
+                cases.append((sts, reac, frc, 3, None, False, "stop_from_handler"))
     for nfl in (12, 50, 700):       # bursts of other sizes (a pipe drained in reads of 64 / 256 / 1024 / 4096 bytes loses a request at one of them)
         cases.append((("ready", "ready"), "dpa_now", False, 5, None, False, f"flood{nfl}"))
     cases.append((("ready", "ready"), "dpa_now", False, 5, None, False, "flood"))
